@@ -97,10 +97,13 @@ Proof. intros H. unfold sub64, two64. lia. Qed.
 
 Lemma desc_m2_le_m1 s : desc (added s :: marks s) -> m2 s <= m1 s /\ m1 s <= added s.
 Proof.
-  unfold m1, m2. destruct (marks s) as [|a [|b r]]; cbn; intros H; try lia.
-  - destruct H as [H _]; lia.
-  - destruct H as [H1 [H2 _]]. lia.
+  unfold m1, m2. destruct (marks s) as [|a [|b r]]; cbn; intros H; lia.
 Qed.
+
+Ltac side Htd Hent Hnfe A :=
+  first [ reflexivity | exact I | apply enter_default | exact A | (cbn; exact A) | (cbn; lia) | apply Hent | apply Hnfe
+        | (intros [?X _]; split; [exact X | exact I]) | (split; [exact Htd | exact I])
+        | (cbn; unfold add64; rewrite A; unfold two64; lia) ].
 
 Lemma step_preserves_BInv fx f : step_preserves (step fx) (BInv f).
 Proof.
@@ -112,26 +115,12 @@ Proof.
   assert (Hnfe : forall rs', noflush_local {| pcl := p; todo := td; results := rs |} -> noflush_local (enter td rs'))
     by (intros rs' [X _]; apply enter_noflush; exact X).
   destruct p; cbn in Hpc; try contradiction; try discriminate; cbn in Hstep.
-  - (* Start *) inversion Hstep; subst; clear Hstep.
-    eapply frame_step; eauto; try reflexivity; try lia; try exact I; apply enter_default.
-  - (* PA1 *) inversion Hstep; subst; clear Hstep.
-    eapply frame_step; eauto; try reflexivity; try lia; try exact I.
-    + intros [X _]; split; [exact X|exact I].
-    + split; [exact Htd|exact I].
-  - (* PA2 *) inversion Hstep; subst; clear Hstep.
-    eapply frame_step; eauto; try reflexivity; try exact I.
-    + cbn. unfold add64. rewrite A. unfold two64. lia.
-    + cbn. lia.
-    + intros [X _]; split; [exact X|exact I].
-    + split; [exact Htd|exact I].
-  - (* PA3 *) inversion Hstep; subst; clear Hstep.
-    eapply frame_step; eauto; try reflexivity; try lia; try exact I; apply enter_default.
-  - (* PG1 *) inversion Hstep; subst; clear Hstep.
-    eapply frame_step; eauto; try reflexivity; try lia; try exact I.
-    + intros [X _]; split; [exact X|exact I].
-    + split; [exact Htd|exact I].
-  - (* PG2 *) inversion Hstep; subst; clear Hstep.
-    eapply frame_step; eauto; try reflexivity; try lia; try exact I; apply enter_default.
+  - (* Start *) inversion Hstep; subst; clear Hstep. eapply frame_step; [exact HB|exact Hnth|..]; side Htd Hent Hnfe A.
+  - (* PA1 *) inversion Hstep; subst; clear Hstep. eapply frame_step; [exact HB|exact Hnth|..]; side Htd Hent Hnfe A.
+  - (* PA2 *) inversion Hstep; subst; clear Hstep. eapply frame_step; [exact HB|exact Hnth|..]; side Htd Hent Hnfe A.
+  - (* PA3 *) inversion Hstep; subst; clear Hstep. eapply frame_step; [exact HB|exact Hnth|..]; side Htd Hent Hnfe A.
+  - (* PG1 *) inversion Hstep; subst; clear Hstep. eapply frame_step; [exact HB|exact Hnth|..]; side Htd Hent Hnfe A.
+  - (* PG2 *) inversion Hstep; subst; clear Hstep. eapply frame_step; [exact HB|exact Hnth|..]; side Htd Hent Hnfe A.
   - (* PF1 *) inversion Hstep; subst; clear Hstep.
     destruct (Nat.eq_dec t f) as [->|Hne]; [|exfalso; destruct (F _ _ Hnth Hne) as [_ X]; exact X].
     rewrite Hnth in Ef. inversion Ef; subst lf. unfold fl_ok in Hf. cbn [pcl] in Hf. destruct Hf as [Hl Hg].
@@ -181,12 +170,8 @@ Proof.
         apply fl_ok_default; [apply enter_default|]. unfold m1. cbn. split; [exact Hl|]. rewrite Hg. exact Hdiffs.
       * intros u x Hu Hne. apply nth_error_upd_cases in Hu. destruct Hu as [[-> ->]|[Hne' Hu]]; [congruence|eapply F; eauto].
       * apply Forall_upd; [exact G|apply Hent].
-  - (* PH1 *) inversion Hstep; subst; clear Hstep.
-    eapply frame_step; eauto; try reflexivity; try lia; try exact I.
-    + intros [X _]; split; [exact X|exact I].
-    + split; [exact Htd|exact I].
-  - (* PH2 *) inversion Hstep; subst; clear Hstep.
-    eapply frame_step; eauto; try reflexivity; try lia; try exact I; apply enter_default.
+  - (* PH1 *) inversion Hstep; subst; clear Hstep. eapply frame_step; [exact HB|exact Hnth|..]; side Htd Hent Hnfe A.
+  - (* PH2 *) inversion Hstep; subst; clear Hstep. eapply frame_step; [exact HB|exact Hnth|..]; side Htd Hent Hnfe A.
 Qed.
 
 Definition noflush_prog (p : list uop) : Prop := Forall (fun o => ~ flushop o) p.
@@ -202,7 +187,7 @@ Proof.
     exists (init_local p). split; [rewrite nth_error_map, E; reflexivity|]. unfold fl_ok. cbn. split; reflexivity.
   - intros u l Hu Hne. rewrite nth_error_map in Hu. destruct (nth_error ps u) as [p|] eqn:E; [|discriminate].
     inversion Hu; subst. split; [exact (Hof u p E Hne)|exact I].
-  - induction Hna; cbn; constructor; auto. split; [assumption|exact I].
+  - clear Hlt Hof. induction Hna; cbn; constructor; auto. split; [assumption|exact I].
 Qed.
 
 (* sum of the windows = the value of [added] at the most recent completed load *)
@@ -241,7 +226,6 @@ Proof.
     assert (Hdesc : desc dm /\ hd 0 dm <= added (fst c)).
     { cbn [desc] in B. destruct B as [B1 B2]. destruct Hdm as [->| ->].
       - split; [exact B2|]. destruct (marks (fst c)); cbn in *; lia.
-      - destruct (marks (fst c)) as [|a [|b r]]; cbn in *; try (split; [tauto|lia]).
-        destruct B2 as [B2 B3]. split; [exact B3|lia]. }
+      - destruct (marks (fst c)) as [|a [|b r]]; cbn in *; (split; [tauto|lia]). }
     rewrite diffs_sum by tauto. tauto.
 Qed.
